@@ -50,6 +50,7 @@ type fnExec struct {
 	lets map[string]TV
 	// boxed non-pointer values held in interfaces, by ref term
 	boxed   map[string]TV
+	renamed     []string // locals resolved through their recorded shape (contract name -> current name)
 	lastPFParts []string
 	lastPFDesc  []string
 	depth   int
